@@ -216,7 +216,8 @@ def run_corr(pid, rng, tier):
             elif suite == "types":
                 import corr_types; r = corr_types.run(rng, n=6000 if tier == "thorough" else 1500)
             inc = [d for d in r["disagreements"] if in_cone(suite, cone, d)]
-            res[suite] = {"cases": r["cases"], "nontrivial": r["nontrivial"], "disagreements": len(inc), "out_of_cone_disagreements": len(r["disagreements"]) - len(inc), "first": inc[:3]}
+            res[suite] = {"cases": r["cases"], "nontrivial": r["nontrivial"], "disagreements": len(inc), "out_of_cone_disagreements": len(r["disagreements"]) - len(inc), "first": [{k: v for k, v in d.items() if k != "hint"} for d in inc[:3]],
+                          "hints": [d["hint"] for d in inc if d.get("hint")][:40]}
         except Exception as e:
             res[suite] = {"cases": 0, "nontrivial": 0, "disagreements": 1, "out_of_cone_disagreements": 0, "first": [{"op": "suite crashed", "model": "", "impl": "%s: %s" % (type(e).__name__, str(e)[:300])}], "crash": traceback.format_exc()[-800:]}
     return res
@@ -282,20 +283,7 @@ def main():
             if r["disagreements"] == 0: discharged += 1
             else: broken.append("correspondence %s: %d disagreements, first: %s" % (s, r["disagreements"], json.dumps(r["first"][:1], ensure_ascii=False, default=str)[:700]))
         mod, fn = PROPS[pid]["sweep"]
-        try:
-            m = __import__(mod)
-            sweep = getattr(m, fn)(rng, tier)
-            if broken and tier == "quick" and not sweep["failures"] and not corpus_fails:
-                # failing-input search: a proof obligation or the correspondence broke -> look deeper on the real code
-                log("tie broken (%s) - escalating the sweep to look for a failing input" % broken[0][:160])
-                deeper = getattr(m, fn)(random.Random(seed + 7919), "thorough")
-                deeper["escalated"] = True
-                sweep = deeper
-        except Exception as e:
-            sweep = {"evaluations": 0, "distinct_nontrivial": 0, "failures": [{"text": "(sweep)", "ts": None, "opts": {}, "expected": "sweep runs", "observed": "%s: %s" % (type(e).__name__, str(e)[:300]), "what": "sweep crashed"}],
-                     "samples": [], "rule": "", "distribution": {}, "crash": traceback.format_exc()[-1500:]}
-        fails = corpus_fails + sweep["failures"]
-        # known findings
+        # known findings (the listed ones only; the file is never written at run time)
         findings, fixed = load_known(pid)
         from realparse import eval_case
         stale = []
@@ -308,20 +296,55 @@ def main():
                 known_lines.append("KNOWN-FINDING: property=%s %s (probe %r -> %s, specification %s)" % (pid, f["what"], pr["text"], obs, pr.get("expected")))
             else:
                 stale.append(f["what"])
-        rest = []
-        for x in fails:
-            hit = None
-            for f in findings:
-                if x.get("text") is not None and re.search(f["regex"], x["text"]):
-                    if f.get("depth0"):
-                        o2 = dict(x.get("opts") or {}); o2["max_stack_depth"] = 0
-                        r2 = eval_case((x["text"], tuple(x["ts"]) if x.get("ts") else None, {k: v for k, v in o2.items() if k in ("latent_time", "max_stack_depth", "relative_match_len")}))
-                        if r2.get("res") != x.get("expected"):
-                            continue
-                    hit = f; break
-            if hit: matched[hit["what"]] += 1
-            else: rest.append(x)
-        fails = rest
+
+        def unlisted(fs):
+            rest = []
+            for x in fs:
+                hit = None
+                for f in findings:
+                    if x.get("text") is not None and re.search(f["regex"], x["text"]):
+                        if f.get("depth0"):
+                            o2 = dict(x.get("opts") or {}); o2["max_stack_depth"] = 0
+                            r2 = eval_case((x["text"], tuple(x["ts"]) if x.get("ts") else None, {k: v for k, v in o2.items() if k in ("latent_time", "max_stack_depth", "relative_match_len")}))
+                            if r2.get("res") != x.get("expected"):
+                                continue
+                        hit = f; break
+                if hit: matched[hit["what"]] += 1
+                else: rest.append(x)
+            return rest
+
+        def run_sweep(r, t):
+            try:
+                return getattr(__import__(mod), fn)(r, t)
+            except Exception as e:
+                return {"evaluations": 0, "distinct_nontrivial": 0, "failures": [{"text": "(sweep)", "ts": None, "opts": {}, "expected": "sweep runs", "observed": "%s: %s" % (type(e).__name__, str(e)[:300]), "what": "sweep crashed"}],
+                        "samples": [], "rule": "", "distribution": {}, "crash": traceback.format_exc()[-1500:]}
+        sweep = run_sweep(rng, tier)
+        fails = unlisted(corpus_fails + sweep["failures"])
+        if broken and tier == "quick" and not fails:
+            # failing-input search: a proof obligation or the correspondence broke -> look deeper on the real code
+            log("tie broken (%s) - escalating the sweep to look for a failing input" % broken[0][:160])
+            matched.clear()
+            deeper = run_sweep(random.Random(seed + 7919), "thorough")
+            deeper["escalated"] = True
+            sweep = deeper
+            fails = unlisted(corpus_fails + sweep["failures"])
+        directed_n = 0
+        if broken and not fails and ba["driver_ok"]:
+            # directed failing-input search: the argument tuples on which a rule-level obligation broke, rendered as text and
+            # parsed end to end by the code and by the model
+            hints = [h for v in corr.values() for h in v.get("hints", [])]
+            if hints:
+                try:
+                    import corr_search
+                    found = corr_search.directed(hints)
+                    directed_n = len(hints)
+                    for f in found:
+                        f["what"] = "%s: end-to-end stream of the code deviates from the verified model on an input derived from the broken obligation" % pid
+                    fails = fails + found
+                    log("directed search on %d rendered argument tuples: %d deviating inputs" % (len(hints), len(found)))
+                except Exception as e:
+                    log("directed search crashed: %s: %s" % (type(e).__name__, str(e)[:200]))
         if fails:
             first = fails[0]
             rec = {"property": pid, "kind": "failing-input", "text": first.get("text"), "ts": first.get("ts"), "opts": first.get("opts"), "expected": first.get("expected"), "observed": first.get("observed"),
@@ -336,7 +359,7 @@ def main():
     cov = {"obligations": max(obligations, 1), "discharged": discharged,
            "checker_cmd": "cd lean && lake build QuickAdd.Props.%s && lake env lean Audit/%s.lean   (plus harness/check.py %s for the correspondences and the sweep)" % (pid, pid, pid),
            "trusted_base": TRUSTED,
-           "theorems": ba["theorems"], "correspondence": {k: {kk: vv for kk, vv in v.items() if kk != "crash"} for k, v in corr.items()},
+           "theorems": ba["theorems"], "correspondence": {k: {kk: vv for kk, vv in v.items() if kk not in ("crash", "hints")} for k, v in corr.items()},
            "evaluations": (sweep or {}).get("evaluations", 0) + sum(v["cases"] for v in corr.values()) + corpus_n,
            "distinct_nontrivial": (sweep or {}).get("distinct_nontrivial", 0),
            "rule": (sweep or {}).get("rule", ""), "samples": (sweep or {}).get("samples", [])[:6] or [{"note": "no sweep sample"}],
